@@ -149,6 +149,12 @@ where
 
         self.app.view(&model)
     }
+
+    /// Verification hook: number of tasks held by the core's executor (read-only).
+    #[cfg(crux_verif)]
+    pub fn verif_executor_tasks(&self) -> usize {
+        self.executor.verif_live_tasks()
+    }
 }
 
 impl<A> Default for Core<A>
